@@ -118,4 +118,74 @@ theorem harmonic_le_iff (w0 wmax : ℚ) (h0 : 0 < w0) (k : ℕ) :
   · have : ((k : ℤ) : ℚ) = (k : ℚ) := by norm_cast
     rw [this]; linarith
 
+/-! ### the merge loop of `frequency_components` -/
+
+theorem mem_mergeFrom {wres last w : ℚ} {l : List ℚ} (h : w ∈ mergeFrom wres last l) : w ∈ l := by
+  induction l generalizing last with
+  | nil => simp [mergeFrom] at h
+  | cons a l ih =>
+    unfold mergeFrom at h
+    split at h
+    · rcases List.mem_cons.mp h with rfl | h'
+      · exact List.mem_cons_self ..
+      · exact List.mem_cons_of_mem _ (ih h')
+    · exact List.mem_cons_of_mem _ (ih h)
+
+theorem mem_mergeRes {wres w : ℚ} {l : List ℚ} (h : w ∈ mergeRes wres l) : w ∈ l := by
+  cases l with
+  | nil => simp [mergeRes] at h
+  | cons a l =>
+    rcases List.mem_cons.mp h with rfl | h'
+    · exact List.mem_cons_self ..
+    · exact List.mem_cons_of_mem _ (mem_mergeFrom h')
+
+/-- every kept frequency exceeds `last` by more than the resolution, and any two kept
+frequencies are more than the resolution apart -/
+theorem mergeFrom_separated (wres : ℚ) (hres : 0 ≤ wres) (last : ℚ) (l : List ℚ) :
+    (∀ w ∈ mergeFrom wres last l, wres < w - last) ∧
+      (mergeFrom wres last l).Pairwise (fun a b => wres < b - a) := by
+  induction l generalizing last with
+  | nil => simp [mergeFrom]
+  | cons a l ih =>
+    unfold mergeFrom
+    split
+    · rename_i hk
+      obtain ⟨h1, h2⟩ := ih a
+      refine ⟨?_, List.pairwise_cons.mpr ⟨h1, h2⟩⟩
+      intro w hw
+      rcases List.mem_cons.mp hw with rfl | hw'
+      · exact hk
+      · have := h1 w hw'; linarith
+    · exact ih last
+
+theorem mergeRes_separated (wres : ℚ) (hres : 0 ≤ wres) (l : List ℚ) :
+    (mergeRes wres l).Pairwise (fun a b => wres < b - a) := by
+  cases l with
+  | nil => simp [mergeRes]
+  | cons a l =>
+    obtain ⟨h1, h2⟩ := mergeFrom_separated wres hres a l
+    exact List.pairwise_cons.mpr ⟨h1, h2⟩
+
+/-- every frequency of the sorted list is represented: by `last`, or by a kept frequency below
+it and within the resolution -/
+theorem mergeFrom_covers (wres : ℚ) (hres : 0 ≤ wres) (last : ℚ) (l : List ℚ) (hs : l.Pairwise (· ≤ ·)) (hl : ∀ w ∈ l, last ≤ w) :
+    ∀ w ∈ l, (w - last ≤ wres) ∨ ∃ k ∈ mergeFrom wres last l, k ≤ w ∧ w - k ≤ wres := by
+  induction l generalizing last with
+  | nil => simp
+  | cons a l ih =>
+    obtain ⟨ha, hs'⟩ := List.pairwise_cons.mp hs
+    intro w hw
+    unfold mergeFrom
+    split
+    · rename_i hk
+      rcases List.mem_cons.mp hw with rfl | hw'
+      · exact Or.inr ⟨w, List.mem_cons_self .., le_refl _, by rw [sub_self]; exact hres⟩
+      · rcases ih a hs' (fun x hx => ha x hx) w hw' with h | ⟨k, hk1, hk2⟩
+        · exact Or.inr ⟨a, List.mem_cons_self .., ha w hw', h⟩
+        · exact Or.inr ⟨k, List.mem_cons_of_mem _ hk1, hk2⟩
+    · rename_i hk
+      rcases List.mem_cons.mp hw with rfl | hw'
+      · exact Or.inl (not_lt.mp hk)
+      · exact ih last hs' (fun x hx => hl x (List.mem_cons_of_mem _ hx)) w hw'
+
 end CC
